@@ -1,3 +1,150 @@
-"""Contracts for aotools/wfs/wfslib.py"""
+"""Contracts for aotools/wfs/wfslib.py (property C14, sub-aperture clauses)."""
+import z3
+from aovc.check import num
+from aovc.contract import verify
+from aovc.values import zr, zi, r_round_half_even, cmp
+from aovc.arrays import sym_arr, Arr
+from aovc import npmodel, sigma
+
+W = "aotools/wfs/wfslib.py"
+
+
+def rnd(x):
+    return zi(r_round_half_even(zr(x)))
+
+
+def cell_mean(it, mask, x1, x2, y1, y2):
+    ms = mask.snapshot()
+    s = npmodel.sigma(it, [(0, x2 - x1), (0, y2 - y1)], lambda k: ms([x1 + k[0], y1 + k[1]]), "cell")
+    return zr(s) / (z3.ToReal(x2 - x1) * z3.ToReal(y2 - y1))
+
+
 def obligations(chk):
-    pass
+    H, Wd, n, S, F = z3.Ints("H Wd n S F")
+    sp, thr = z3.Reals("sp thr")
+    i, x, y, f, c = z3.Ints("i x y f c")
+
+    # ---------------------------------------------------------------- computeFillFactor
+    def cell_ok(px, py):
+        return z3.And(rnd(px) >= 0, rnd(px) < rnd(px + sp), rnd(px + sp) <= H, rnd(py) >= 0, rnd(py) < rnd(py + sp), rnd(py + sp) <= Wd)
+    holder = {}
+
+    def run_fill(it):
+        for a in (H >= 1, Wd >= 1, n >= 0):
+            it.ctx.assume(a)
+        mask = sym_arr("mask", [H, Wd], prov={"mask"})
+        pos = sym_arr("pos", [n, 2], prov={"subapPos"})
+        holder["mask"], holder["pos"] = mask, pos
+        return it, it.call_repo(W, "computeFillFactor", [mask, pos, sp])
+    ANN_FILL = {("computeFillFactor", 0): {"requires": [lambda it, K: [cell_ok(zr(holder["pos"].get([K[0], 0])), zr(holder["pos"].get([K[0], 1])))]]}}
+
+    def post_fill(pr):
+        it, fills = pr.value
+        mask, pos = holder["mask"], holder["pos"]
+        ok = isinstance(fills, Arr) and fills.ndim == 1
+        goals = [("returns-1d", z3.BoolVal(ok))]
+        if not ok:
+            return goals
+        goals.append(("length=len(subapPos)", zi(fills.shape[0]) == n))
+        px, py = zr(pos.get([i, 0])), zr(pos.get([i, 1]))
+        inb = z3.And(i >= 0, i < n)
+        code = zr(fills.get([i]))
+        spec = cell_mean(it, mask, rnd(px), rnd(px + sp), rnd(py), rnd(py + sp))
+        req = cell_ok(px, py)
+        side, hyps = sigma.relate_pairwise(it.ctx, code, spec)
+        goals += [("fill." + nm, z3.Implies(z3.And(inb, req), g)) for nm, g in side]
+        goals.append(("fills[i]=mean(mask[rnd(x):rnd(x+sp), rnd(y):rnd(y+sp)])", z3.Implies(z3.And(inb, req), code == spec), {"hyps": hyps}))
+        return goals
+    verify(chk, "computeFillFactor", W + ":computeFillFactor", run_fill, post_fill, clause="subaps.fill", loop_annotations=ANN_FILL,
+           replay=lambda m: {"H": num(m.eval(H, model_completion=True)), "W": num(m.eval(Wd, model_completion=True)), "n": num(m.eval(n, model_completion=True))},
+           encoding="loop-summary S2 + sigma-extensionality")
+
+    # ---------------------------------------------------------------- make_subaps_2d
+    holder2 = {}
+
+    def run_2d(it):
+        for a in (n >= 1, S >= 0, F >= 1):
+            it.ctx.assume(a)
+        mask = sym_arr("mask", [n, n], prov={"mask"})
+        data = sym_arr("data", [F, 2, S], prov={"data"})
+        holder2["mask"], holder2["data"] = mask, data
+        return it, it.call_repo(W, "make_subaps_2d", [data, mask])
+    # the number of valid sub-apertures does not exceed the slope count: data.shape[-1] >= #ones, stated on the ghost count
+    ANN_2D = {("make_subaps_2d", 1): {"requires": []}}
+
+    def post_2d(pr):
+        it, out = pr.value
+        mask, data = holder2["mask"], holder2["data"]
+        ok = isinstance(out, Arr) and out.ndim == 4
+        goals = [("rank4", z3.BoolVal(ok))]
+        if not ok:
+            return goals
+        goals.append(("shape=(frames,2,n,n)", z3.And(zi(out.shape[0]) == F, zi(out.shape[1]) == 2, zi(out.shape[2]) == n, zi(out.shape[3]) == n)))
+        ranks = getattr(it.ctx, "ranks", [])
+        goals.append(("one-running-counter-over-the-true-cells", z3.BoolVal(len(ranks) == 1)))
+        if len(ranks) != 1:
+            return goals
+        rank, count, full, kv = ranks[0]
+        # the counter's guard is exactly: cell in range and mask == 1   (row-major order over (x, y) by the loop nesting)
+        g = z3.substitute(z3.simplify(full if not isinstance(full, bool) else z3.BoolVal(full)), (kv[0], x), (kv[1], y))
+        goals.append(("counter-counts-cells-with-mask==1-in-row-major-order", g == z3.And(x >= 0, x < n, y >= 0, y < n, zr(mask.get([x, y])) == 1)))
+        inb = z3.And(f >= 0, f < F, c >= 0, c < 2, x >= 0, x < n, y >= 0, y < n)
+        val = zr(out.get([f, c, x, y]))
+        r = rank(x, y)
+        rk = [z3.And(r >= 0, r <= count), z3.Implies(z3.And(x >= 0, x < n, y >= 0, y < n, zr(mask.get([x, y])) == 1), r < count)]     # ghost-rank instance at (x, y)
+        goals.append(("masked-cells-are-zero", z3.Implies(z3.And(inb, zr(mask.get([x, y])) != 1), val == 0)))
+        goals.append(("valid-cell-holds-data[..., rank]", z3.Implies(z3.And(inb, zr(mask.get([x, y])) == 1, count <= S), val == zr(data.get([f, c, r]))), {"hyps": rk}))
+        return goals
+    verify(chk, "make_subaps_2d", W + ":make_subaps_2d", run_2d, post_2d, clause="subaps.scatter", encoding="loop-summary S2 + S5 (ghost rank)", skip_defs=("index in bounds",),
+           replay=lambda m: {"n": num(m.eval(n, model_completion=True))})
+
+    # ---------------------------------------------------------------- findActiveSubaps
+    holder3 = {}
+    for ret_fill in (True, False):
+        def run_act(it, ret_fill=ret_fill):
+            for a in (H >= 1, Wd >= 1, n >= 1, H >= n, Wd >= n):
+                it.ctx.assume(a)
+            mask = sym_arr("mask", [H, Wd], prov={"mask"})
+            holder3["mask"] = mask
+            return it, it.call_repo(W, "findActiveSubaps", [n, mask, thr, ret_fill])
+
+        def lo(t, dim):
+            return rnd(z3.ToReal(t) * (z3.ToReal(dim) / z3.ToReal(n)))
+        ANN_ACT = {("findActiveSubaps", 1): {"requires": [lambda it, K: [lo(K[0], H) < lo(K[0] + 1, H), lo(K[1], Wd) < lo(K[1] + 1, Wd), lo(K[0], H) >= 0, lo(K[0] + 1, H) <= H, lo(K[1], Wd) >= 0, lo(K[1] + 1, Wd) <= Wd]]}}
+
+        def post_act(pr, ret_fill=ret_fill):
+            it, out = pr.value
+            mask = holder3["mask"]
+            coords = out[0] if ret_fill else out
+            ok = isinstance(coords, Arr) and hasattr(coords, "symseq") and (not ret_fill or (isinstance(out[1], Arr) and hasattr(out[1], "symseq")))
+            goals = [("result-is-the-filtered-enumeration-of-the-cells", z3.BoolVal(bool(ok)))]
+            if not ok:
+                return goals
+            seq = coords.symseq
+            kv = seq.kv
+            sub = lambda t: z3.substitute(t, (kv[0], x), (kv[1], y))
+            rng = z3.And(x >= 0, x < n, y >= 0, y < n)
+            cellreq = z3.And(lo(x, H) < lo(x + 1, H), lo(y, Wd) < lo(y + 1, Wd), lo(x, H) >= 0, lo(x + 1, H) <= H, lo(y, Wd) >= 0, lo(y + 1, Wd) <= Wd)
+            mu = cell_mean(it, mask, lo(x, H), lo(x + 1, H), lo(y, Wd), lo(y + 1, Wd))
+            gcode = sub(seq.guard if not isinstance(seq.guard, bool) else z3.BoolVal(seq.guard))
+            side, hyps = sigma.relate_pairwise(it.ctx, gcode, mu)
+            goals += [("selection." + nm, z3.Implies(z3.And(rng, cellreq), g)) for nm, g in side]
+            goals.append(("selected-iff-mean(mask cell)>=threshold", z3.Implies(z3.And(rng, cellreq), gcode == (mu >= thr)), {"hyps": hyps}))
+            val = seq.value_fn([x, y])
+            sx, sy = z3.ToReal(H) / z3.ToReal(n), z3.ToReal(Wd) / z3.ToReal(n)
+            goals.append(("coordinate=(x*xSpacing, y*ySpacing)", z3.Implies(rng, z3.And(zr(val[0]) == z3.ToReal(x) * sx, zr(val[1]) == z3.ToReal(y) * sy))))
+            goals.append(("loops-run-x-then-y (row-major order)", z3.BoolVal(len(kv) == 2)))
+            if ret_fill:
+                fseq = out[1].symseq
+                fv = zr(fseq.value_fn([x, y]))
+                side2, hyps2 = sigma.relate_pairwise(it.ctx, fv, mu)
+                goals += [("fills." + nm, z3.Implies(z3.And(rng, cellreq), g)) for nm, g in side2]
+                goals.append(("fill=mean(mask cell)", z3.Implies(z3.And(rng, cellreq), fv == mu), {"hyps": hyps2}))
+                fg = z3.substitute(fseq.guard if not isinstance(fseq.guard, bool) else z3.BoolVal(fseq.guard), (fseq.kv[0], x), (fseq.kv[1], y))
+                goals.append(("fills-selected-under-the-same-condition", z3.Implies(rng, fg == gcode)))
+            # monotone in the threshold (lemma over the contract)
+            t2 = z3.Real("thr2")
+            goals.append(("lemma.monotone-in-threshold", z3.Implies(z3.And(thr <= t2, mu >= t2), mu >= thr)))
+            return goals
+        verify(chk, "findActiveSubaps[returnFill=%s]" % ret_fill, W + ":findActiveSubaps", run_act, post_act, clause="subaps.selection", loop_annotations=ANN_ACT,
+               encoding="loop-summary S4 (filtered append, ghost rank) + sigma-extensionality", replay=lambda m: {"n": num(m.eval(n, model_completion=True)), "H": num(m.eval(H, model_completion=True)), "W": num(m.eval(Wd, model_completion=True))})
